@@ -733,10 +733,13 @@ func c14Space(rep *vlib.Report, mode string) {
 							return
 						}
 					}
+					var got string
 					e.run("space", id, false, func(ctx context.Context) (bool, string) {
 						r := f.upload(u)
+						got = r.status
 						return r.ok, r.status
 					})
+					rep.Outcome(fmt.Sprintf("space hard=%v %s %s %s -> %s", hard > 0, cause, path, shape, got))
 					if held > 0 {
 						_ = disk.VfUnreserve(f.cache, held)
 					}
